@@ -152,7 +152,7 @@ Definition run_build (p : profile) (calls : list arg) : list string :=
   let r := (b <- apply_calls p builder_new calls ;; builder_build p b PAD) in
   (* alloc: the layout build() asks the allocator for - the whole image, ALIGNMENT *)
   line "build" (sRes (fun img => "total=" ++ sN (le (slice img 0 4)) ++ " sov=" ++ sN (len img)
-                                 ++ " alloc=" ++ sN (len img) ++ "," ++ sN 8) r)
+                                 ++ " alloc=" ++ sN (len img) ++ "," ++ sN 8 ++ " head=" ++ sBytes (slice img 0 8)) r)
   :: match r with Val img => run_mbi p img | _ => [] end.
 
 Fixpoint happly_calls (p : profile) (b : hbuilder) (calls : list arg) : res hbuilder :=
@@ -168,7 +168,7 @@ Definition run_hbuild (p : profile) (arch : N) (calls : list arg) : list string 
   let r := (b <- happly_calls p (hbuilder_new arch) calls ;; hbuilder_build p b PAD) in
   line "hbuild" (sRes (fun img => "length=" ++ sN (le (slice img 8 4)) ++ " sov=" ++ sN (len img)
                                   ++ " last8=" ++ sBytes (slice img (len img - 8) 8)
-                                  ++ " alloc=" ++ sN (len img) ++ "," ++ sN 8) r)
+                                  ++ " alloc=" ++ sN (len img) ++ "," ++ sN 8 ++ " head=" ++ sBytes (slice img 0 16)) r)
   :: match r with Val img => run_hdr p img | _ => [] end.
 
 (* newboxed <hkind 0|1|2> <header bytes> [ slices ]: new_boxed::<DynSizedStructure<H>> and the
